@@ -76,6 +76,9 @@ def gen_pairs_trace(recipe, rng):
   X = tr['X']
   S, idx, y = pair_tests(rng, X)
   int_tuples = bool(recipe.get('int_tuples'))
+  if recipe.get('offset') and not int_tuples:
+    # the test tuples share a LARGE common offset (2^40) - exact in double precision, the differences are unchanged
+    S = S + 2.0 ** 40 * np.round(rng.normal(size=X.shape[1]) * 3.0)
   if int_tuples:
     # the same kind of data on the INTEGER grid, handed to the estimator as int64 arrays (formed tuples, or an integer
     # preprocessor array): the distances compared are still those of the designated points under the learned L
@@ -290,7 +293,7 @@ def run(ctx):
   rs = []
   for i, ops in enumerate(hs):
     rs.append(dict(est=gen.PAIRS[i % 3], d=int(rng.integers(2, 5)), seed=int(rng.integers(1 << 30)),
-                   via_index=bool(i % 2), ops=[list(o) for o in ops], src='tlc', int_tuples=bool(i % 4 >= 2)))
+                   via_index=bool(i % 2), ops=[list(o) for o in ops], src='tlc', int_tuples=bool(i % 4 >= 2), offset=bool(i % 8 == 1)))
   n_rand = 12 if ctx.quick else 600
   for i in range(n_rand):
     L = int(rng.integers(4, 12))
